@@ -80,6 +80,10 @@ FEATURES = {
     "gen_payload2": ("let qs = Both((Box { v: k }, None_));", "(match qs { Circle(qb) => qb.v, Sq(_, qn) => qn, Both(qp) => qp.0.v + (match qp.1 { Some_(_) => 1, None_ => 0 }) })"),
     "gen_ret_only": ('let qo: Opt[int32] = gnone(); let qs: Opt[string] = gnone();', 'gor(qo, k) + string_len(gor(qs, "ab"))'),
     "gen_ret_only_vec": ("let qv: Vec[int32] = gvnew(); let qw: Vec[bool] = gvnew(); let qv = vec_push(qv, k);", "vec_get(qv, 0) + vec_len(qw)"),
+    "gen_in_array": ("let qa: [Opt[int32]; 2] = [Some_(k), None_];", "(match array_get(qa, 0) { Some_(qz) => qz, None_ => 0 }) + (match array_get(qa, 1) { Some_(_) => 1, None_ => 2 })"),
+    "gen_in_array_struct": ("let qa: [Box[int32]; 2] = [Box { v: k }, Box { v: 2 }]; let qb0 = array_get(qa, 0); let qb1: Box[int32] = array_get(array_set(qa, 1, Box { v: 4 }), 1);", "qb0.v + qb1.v"),
+    "closure_gen_param": ("let qf = |qm: Opt[int32]| match qm { Some_(qz) => qz + k, None_ => k };", "qf(Some_(1)) + qf(None_)"),
+    "closure_gen_result": ("let qf = |qy: int32| if qy < k { Some_(qy) } else { None_ };", "gor(qf(0), 5) + gor(qf(k), 7)"),
     "dyn_prim": ("let qd: dyn Tick = k;", "Tick::val(qd) + Tick::xval(qd)"),
     "dyn_struct": ("let qk = K { c: ref(k) }; let qd: dyn Tick = qk; let _ = Tick::tick(qd);", "Tick::addv(qd, 5) + Tick::xval(qd)"),
     "dyn_generic": ("let qb: Box[int32] = Box { v: k }; let qd: dyn Tick = qb;", "Tick::xval(qd) + Tick::val(qd)"),
